@@ -325,13 +325,18 @@ def order_obs(o) -> dict:
 # ---------------------------------------------------------------------------------------------
 class Link:
     def __init__(self, root: str, price: int, qty: int, ticker="TICK", side="1", ord_type="2", account="ACC",
-                 ptype="float", qtype="float", argint=False):
+                 ptype="float", qtype="float", argint=False, enums=False):
         """ptype / qtype: Python type of the constructor's price / qty ('int' is honoured when the value is
         integral); argint: pass integral replace_req arguments as int.  The TYPE is a Python-only dimension:
         the model's numbers are grid integers whatever the Python type."""
         from asyncfix.protocol.order_single import FIXNewOrderSingle
 
         self.argint = argint
+        if enums:  # pass FOrdSide / FOrdType members instead of their string values
+            from asyncfix.protocol.common import FOrdSide, FOrdType
+
+            side = FOrdSide(side)
+            ord_type = FOrdType(ord_type)
         self.order = FIXNewOrderSingle(root, ticker, side, typed(price, ptype == "int"), typed(qty, qtype == "int"),
                                        ord_type, account)
         self.c2e = []   # real FIXMessages
